@@ -168,7 +168,7 @@ pub fn proto_worlds(tier: Tier, with_foreach: bool, with_sources: bool) -> Vec<W
             v.extend(with_bounds(Op::FromIter(xs), tier, |_| {}));
         }
         v.extend(with_bounds(Op::FromIterUnbounded, tier, |_| {}));
-        v.extend(with_bounds(Op::Interval(7), tier, |s| s.cfg.max_probes = 2));
+        v.extend(with_bounds(Op::Interval(7000), tier, |s| s.cfg.max_probes = 2));
     }
     for op in unary_ops() {
         v.extend(with_bounds(op, tier, |_| {}));
@@ -504,8 +504,12 @@ pub fn c15_worlds(tier: Tier) -> Vec<WorldSpec> {
 
 pub fn c16_worlds(tier: Tier) -> Vec<WorldSpec> {
     let mut v = vec![];
-    for period in [1u64, 7] {
+    // periods in microseconds: 1 ms, 7 ms, and one with a sub-millisecond part
+    for period in [1000u64, 7000, 1500] {
         for probes in 1..=3u8 {
+            if period == 1500 && probes > 1 {
+                continue;
+            }
             let (e, d) = match (probes, q(tier)) {
                 (1, true) => (9, 4),
                 (1, false) => (11, 5),
@@ -614,7 +618,7 @@ pub fn c13_worlds(tier: Tier) -> Vec<WorldSpec> {
     let ops: Vec<(Op, u32, u32)> = vec![
         (Op::FromIter(vec![1, 2, 3]), 7, 3),
         (Op::FromIterUnbounded, 6, 3),
-        (Op::Interval(7), 6, 2),
+        (Op::Interval(7000), 6, 2),
         (Op::Map, 5, 2),
         (Op::Filter(Pred::Even), 5, 2),
         (Op::Scan(0), 5, 2),
